@@ -50,9 +50,10 @@ def _run(case, rec):
     V0, F = m["verts"], [list(map(int, f)) for f in m["faces"]]
     pl = dict(case["place"])
     if pl["logs"] > 6.0:
-        # Polygon (used for the faces) tests planarity with an absolute tolerance (planar_tolerance=1e-5, a documented
-        # parameter), so rotated faces with coordinates >= 1e7 are refused for rounding noise alone: a stated limit of
-        # the constructor, not of the measures; those draws are folded onto the tiny end of the range instead
+        # Polygon (used for the faces) tests planarity as |n.v - d| <= 1e-8 + planar_tolerance*|d| (numpy.isclose with
+        # rtol=planar_tolerance, a documented parameter), so rotated faces with coordinates >= 1e7 are refused for
+        # rounding noise alone: a stated limit of the constructor, not of the measures; those draws are folded onto
+        # the tiny end of the range instead
         pl["logs"] -= 14.0
     V, R, t, s = zoo.apply_placement(pl, V0)
     # cyclic shift of every face's start vertex (a relabelling the class must not care about)
